@@ -30,6 +30,8 @@ structure HData where
   newline : String
   identifierKinds : List String
   elisionKinds : List String
+  /-- `Indentator('')` uses the dispatcher's indent string (`self.indent_str if self.indent_str else …`) -/
+  emptyIndentFallsBack : Bool
 
 /-! ### strings -/
 
@@ -183,19 +185,20 @@ def dropLineCont (hd : HData) (l : List Char) : List Char := dropLineContAux hd 
 
 /-! ### layout handlers -/
 
-/-- state of a layout handler call: the Indentator's `_level` -/
-abbrev Level := Int
 
 def fragAt (node : Val) (s : String) : Frag :=
   let p := getpos0 node s
   { text := s, line := p.1, col := p.2, name := none, source := .none }
 
-/-- Indentator._generate_indents: `s = self.indent_str if self.indent_str else dispatcher.indent_str` -/
-def generateIndents (hd : HData) (indentStr : Option String) (level : Level) : List Frag :=
-  let s := match indentStr with
-    | some s => if s == "" then hd.dispIndent else s
-    | none => hd.dispIndent
-  let indents := strMul s level
+/-- the string the Indentator multiplies: `self.indent_str if self.indent_str else dispatcher.indent_str` -/
+def effIndent (hd : HData) (indentStr : Option String) : String :=
+  match indentStr with
+  | some s => if s == "" && hd.emptyIndentFallsBack then hd.dispIndent else s
+  | none => hd.dispIndent
+
+/-- Indentator._generate_indents -/
+def generateIndents (hd : HData) (indentStr : Option String) (level : Int) : List Frag :=
+  let indents := strMul (effIndent hd indentStr) level
   if indents == "" then [] else [{ text := indents, line := none, col := none, name := none, source := .none }]
 
 def newlineFrag (hd : HData) : Frag :=
@@ -230,7 +233,7 @@ One layout handler call: `handler(dispatcher, node, before, after, prev)` with t
 level as state.  Returns the fragments it yields and the new level.
 -/
 def runHandler (hd : HData) (indentStr : Option String) (h : HandlerId) (node : Val)
-    (before after prev : Option String) (level : Level) : List Frag × Level :=
+    (before after prev : Option String) (level : Int) : List Frag × Int :=
   match h with
   | .noop => ([], level)
   | .semicolon => ([fragAt node ";"], level)
